@@ -144,7 +144,9 @@ class Model:
             self.shared_sets.append(key)
         lst = lf.sets.setdefault(key, [])
         o = MObj(kind, op['name'], op['h'], lf, set_name)
-        o.copy = sum(1 for x in lst if x.name == o.name)
+        # identity = (set type, origin, copy, name): same-named objects of one type get distinct copy numbers, also when
+        # they sit in differently named sets of that type
+        o.copy = sum(1 for x in lf.objs_of(kind) if x.name == o.name)
         oref = kw.pop('origin_reference', None)
         if kind == 'origin':
             origins = lf.objs_of('origin')
